@@ -18,13 +18,16 @@ ASSUMPTIONS = [
 ]
 
 
-def export_real(lines, bin_bytes: bytes):
+BIN_NAMES = ["disc.bin", "disc.bin", "AKAI CD Vol 1 (Track 01).bin", "a b.bin", "My  Disc.BIN", "x-y_z.img"]
+
+
+def export_real(lines, bin_bytes: bytes, bin_name: str = "disc.bin"):
     """real end-to-end export of a bin/cue pair; returns {relative path: wav bytes}, stdout."""
     from smpl_extract import actions as A
 
     d = tempfile.mkdtemp(prefix="verif_c03_")
     try:
-        with open(os.path.join(d, "disc.bin"), "wb") as f:
+        with open(os.path.join(d, bin_name), "wb") as f:
             f.write(bin_bytes)
         cue = os.path.join(d, "disc.cue")
         with open(cue, "w", encoding="ascii", newline="") as f:
@@ -58,9 +61,9 @@ def pcm_of(wav: bytes):
     return hdr + (b"",)
 
 
-def oracle_export(rep: Report, lines, firsts, bin_bytes, titles):
+def oracle_export(rep: Report, lines, firsts, bin_bytes, titles, bin_name="disc.bin"):
     try:
-        files, out = export_real(lines, bin_bytes)
+        files, out = export_real(lines, bin_bytes, bin_name)
     except Exception as e:
         rep.findings.append(Finding("cdda-export-crash", {"lines": lines, "bin_len": len(bin_bytes), "error": repr(e)}))
         return
@@ -103,7 +106,8 @@ def run(ctx, rep: Report, deep: bool = False):
     for i in range(ctx.n(60, 1000)):
         nt = rng.randint(1, 8)
         titled = rng.random() < 0.5
-        lines = ['FILE "disc.bin" BINARY\n']
+        bin_name = rng.choice(BIN_NAMES)  # S120: names with blanks, as ripping tools write them
+        lines = [f'FILE "{bin_name}" BINARY\n']
         cur = rng.choice([0, 0, 2, rng.randint(0, 60)])
         firsts, titles = [], []
         # track numbers: 1..n, gapped, or in no order at all - "the next track" is the next one in the sheet (S99)
@@ -135,8 +139,10 @@ def run(ctx, rep: Report, deep: bool = False):
         bin_len = 2352 * firsts[-1] + tail
         bin_bytes = bytes((rng.randrange(256) for _ in range(bin_len))) if bin_len < 200000 else os.urandom(bin_len)
         cases.append(Case(FC.op_windows(lines, bin_len), FC.windows_real(lines, bin_len)))
-        oracle_export(rep, lines, firsts, bin_bytes, titles)
+        oracle_export(rep, lines, firsts, bin_bytes, titles, bin_name)
         rep.feat("pairs_exported")
+        if " " in bin_name:
+            rep.feat("bin_name_with_blanks")
         rep.feat(f"tail_{tail if tail in (1, 3, 4, 2351, 2352, 2353) else 'random'}")
         if nt >= 2:
             rep.feat("multi_track")
